@@ -595,7 +595,12 @@ func (e *env) progText(p *program, tr *evmx.Tracer) (string, uint64) {
 				if n.Swallow {
 					pOk, pFail, sw = evmx.PostSwallow, evmx.PostSwallow, 1
 				}
-				hdr := fmt.Sprintf("%d %d %d %s %d %d %d %d", callc, n.RequestedGas(), stip, n.Kind, xfer, sw, pOk, pFail)
+				funded := 1
+				if hasVal && n.Value.BitLen() > 90 {
+					funded = 0 // CanTransfer fails: evm.Call returns at once, all the gas handed over comes back
+					e.cnt("value-call-the-caller-cannot-fund:" + n.Op)
+				}
+				hdr := fmt.Sprintf("%d %d %d %s %d %d %d %d %d", callc, n.RequestedGas(), stip, n.Kind, xfer, funded, sw, pOk, pFail)
 				if n.Op == "call" {
 					if !hasFrame {
 						ci = -1
